@@ -141,8 +141,9 @@ pub fn render_styled(seq: &[Item], hostile: &[usize], style: Style) -> String {
             Item::Else => s.push_str("#else\n"),
             Item::Endif => s.push_str("#endif\n"),
             Item::Marker => s.push_str(&format!("mk{}\n", i)),
-            Item::IfdefNoName => s.push_str("#ifdef\n"),
-            Item::DefineNoName => s.push_str("#define\n"),
+            // (alternately with and without blanks between the directive and the line break)
+            Item::IfdefNoName => s.push_str(["#ifdef\n", "#ifdef \n", "#ifdef\t \n", "#ifdef /* c */ \n"][i % 4]),
+            Item::DefineNoName => s.push_str(["#define\n", "#define \t\n", "#define  \n", "#define /* c */\n"][(i + 1) % 4]),
         }
     }
     s
